@@ -44,7 +44,7 @@ def _worker_env(tmp, seed, tier):
     env["VERIF_TIER"] = tier
     env["PYTHONHASHSEED"] = "0"
     env["PYTHONDONTWRITEBYTECODE"] = "1"
-    env["PYTHONPATH"] = str(VERIF)
+    env.pop("PYTHONPATH", None)   # workers run with cwd=/verif and -m; nothing of the harness leaks into jedi's environment
     for k in ("VIRTUAL_ENV", "CONDA_PREFIX", "PYTHONSTARTUP", "DJANGO_SETTINGS_MODULE"):
         env.pop(k, None)
     return env
